@@ -61,7 +61,7 @@ def build_abs(content, order=None, cap=True):
 
 
 def base(ctx, shape, wmax, uniform_channel):
-    b = build_rel(ctx, SHAPES[shape], pitch=(60, 62), chan=(0, 0) if uniform_channel else (0, 1), wait=(1, wmax))
+    b = build_rel(ctx, SHAPES[shape], pitch=(60, 62), chan=(0, 0) if uniform_channel else (0, 1), wait=(1, wmax), vel=(0, 127))
     ctx.assume(distinct_keys_or_disjoint(ctx, b.notes))
     cont = Content([[n.ch, n.pitch, n.start, n.end, n.vel] for n in b.notes], [3, 4, 0], [2, 0], b.total)
     return b, cont
@@ -122,8 +122,8 @@ def q_perturb(shape, wmax, attr, dmax, which):
             ctx.assume(c2.notes[i][3] > c2.notes[i][2])
             c2.total = ite(c2.notes[i][3] > c2.total, c2.notes[i][3], c2.total)
         elif attr == "velocity":
-            c2.notes[i][4] = c2.notes[i][4] + d
-            ctx.assume(and_(c2.notes[i][4] >= 1, c2.notes[i][4] <= 127))
+            c2.notes[i][4] = c2.notes[i][4] + d * (1 if which == 0 else 127)      # also the extreme pair 0 / 127
+            ctx.assume(and_(c2.notes[i][4] >= 0, c2.notes[i][4] <= 127))
         elif attr == "channel":
             for n in c2.notes:
                 n[0] = n[0] + abs(d)
